@@ -5,7 +5,9 @@ import (
 )
 
 func mergeDocs(doc, patch *Document) error {
-	merged, err := merge(doc.Data, patch.Data)
+	// Merge a private copy of the patch so that several target documents (and
+	// later layers) never share or mutate the patch's maps and lists.
+	merged, err := merge(doc.Data, cloneTree(patch.Data))
 	if err != nil {
 		return err
 	}
@@ -201,7 +203,7 @@ func mergeListMatch(obj []any, m any, v map[string]any) ([]any, error) {
 		if match(v2, m) {
 			found = true
 
-			v2, err := merge(v2, val)
+			v2, err := merge(v2, cloneTree(val))
 			if err != nil {
 				return nil, err
 			}
